@@ -349,7 +349,33 @@ def rule_memo_key_complete_(ctx: Ctx, rep: Report) -> None:
     rule_memo_key_complete(ctx, rep, "C10.memo_key_complete", ('btclib.psbt', 'btclib.psbt_signer', 'btclib.bip322', 'btclib.script'))
 
 
+def rule_redeem_script_pushed(ctx: Ctx, rep: Report) -> None:
+    """C10.redeem_script_pushed: a p2sh input is spent by pushing its redeem
+    script last in the script_sig, whatever the redeem script is -- a wrapped
+    segwit program, a multisig, a bare p2pkh (sh(pkh())). Every script_sig
+    `_finalized_input` answers is built with the input's redeem script (empty
+    when there is none): an arm that leaves it out finalizes a spend the
+    engine refuses ("false top stack element")."""
+    from sa.canon import expand
+    rule = "C10.redeem_script_pushed"
+    fi = ctx.func("btclib.psbt.psbt._finalized_input")
+    p0 = fi.params()[0]
+    rs = {a.targets[0].id for a in own_nodes(fi.node) if isinstance(a, ast.Assign) and isinstance(a.targets[0], ast.Name) and f"{p0}.redeem_script" in str(norm(a.value))}
+    rs |= {a.target.id for a in own_nodes(fi.node) if isinstance(a, ast.AnnAssign) and isinstance(a.target, ast.Name) and a.value is not None and f"{p0}.redeem_script" in str(norm(a.value))}
+    n = 0
+    for r in own_nodes(fi.node):
+        if isinstance(r, ast.Return) and isinstance(r.value, ast.Tuple) and len(r.value.elts) == 2:
+            n += 1
+            text = str(expand(fi, r.value.elts[0]))
+            names = {x.id for x in ast.walk(ast.parse(text, mode="eval")) if isinstance(x, ast.Name)}
+            ok = bool(names & rs) or f"{p0}.redeem_script" in text
+            rep.ob(rule, f"_finalized_input:return@{n}", ok, fi.where(r), "the script_sig carries the redeem script (if any)" if ok else
+                   f"the script_sig `{text[:80]}` is built without the input's redeem script: a p2sh-wrapped input of this kind is finalized into a spend its own engine refuses")
+    rep.floor(rule, 4)
+
+
 RULES = [
+    ("C10.redeem_script_pushed", rule_redeem_script_pushed),
     ("C10.memo_key_complete", rule_memo_key_complete_),
     ("C10.engine_admits", rule_engine_admits),
     ("C10.witness_order", rule_witness_order),
